@@ -124,6 +124,9 @@ def gen_bias(r, name, cvs):
         return None
     n = 1 if (kind == "abf" or r.random() < 0.7) else min(2, len(cand))
     sel = r.sample(cand, n)
+    if kind == "harmonic" and n == 1 and r.random() < 0.15:
+        sel = sel + sel          # `colvars x x`: the same variable twice (children/parents with multiplicity 2)
+        n = 2
     names = [c["name"] for c in sel]
     L = [kind + " {", "  name " + name, "  colvars " + " ".join(names)]
     if kind == "harmonic":
@@ -807,7 +810,41 @@ def check(run):
         run.dist("identity:histories")
         run.dist("identity:deletions", ndeleted)
         compare_identity(run, seq, ref, f1[-1], f2[-1], o1, o2, tabs, f1_hit)
+    if not quick:
+        asan_stream(run, 300)
     run.cov["correspondence"].update({"histories": len(seqs), "primitive_cases": nprim, "module_event_cases": ndel, "identity_histories": nid})
+
+
+def asan_stream(run, n):
+    """thorough tier: define/delete histories (ending with a reset half of the time) under AddressSanitizer +
+    UndefinedBehaviorSanitizer + LeakSanitizer: a reference to a destroyed object that is USED, or an object that is
+    never destroyed, is a concrete failing input"""
+    try:
+        unit = V.build_prog("c13unit", UNIT_SRC, variant="asan")
+    except V.InfraError as e:
+        run.notes.append("asan variant could not be built: %s" % str(e)[-300:])
+        return
+    r = V.rng("C13-asan")
+    d = V.scratch("C13a")
+    env = dict(os.environ, ASAN_OPTIONS="detect_leaks=1:exitcode=99", UBSAN_OPTIONS="print_stacktrace=1")
+    for k in range(n):
+        seq = gen_sequence(r, k, r.randint(6, 40), with_set=(k % 2 == 0))
+        if k % 2:
+            seq["events"].append({"op": "reset"})
+        sc = scenario(seq, dumps=False)
+        open(os.path.join(d, "a.scn"), "w").write(sc)
+        rc, o, e = V.sh([unit, "a.scn"], cwd=d, timeout=600, env=env)
+        run.count("asan:%d" % k, True)
+        run.dist("asan:histories")
+        m = re.search(r"ERROR: (AddressSanitizer|LeakSanitizer): ([^\n]*)", e) or re.search(r"(runtime error): ([^\n]*)", e)
+        if m:
+            kind = "undefined-behaviour" if m.group(1) == "runtime error" else ("leak" if m.group(1) == "LeakSanitizer" else m.group(2).split()[0])
+            frames = [l.strip() for l in e.split("\n") if re.match(r"\s*#\d+ ", l) and "colvar" in l][:6]
+            run.violation("asan:" + kind, "a define/delete history under the sanitizers: %s: %s; %s" % (m.group(1), m.group(2)[:200], " | ".join(frames)[:700]),
+                          {"kind": "scenario", "scenario": sc, "variant": "asan"})
+        elif "echo END" not in o:
+            run.violation("asan:crash", "the engine simulator (sanitizer build) died (rc=%d) during a define/delete history: %s" % (rc, e[-300:]),
+                          {"kind": "scenario", "scenario": sc, "variant": "asan"})
 
 
 def table_oracles(run, tabs, label):
@@ -863,7 +900,7 @@ def replay(path):
     j = json.load(open(path))
     rp = j["replay"]
     print(json.dumps(j, indent=1)[:3000])
-    unit = V.build_prog("c13unit", UNIT_SRC)
+    unit = V.build_prog("c13unit", UNIT_SRC, variant=rp.get("variant", "plain"))
     d = V.scratch("C13r")
     for key in ("scenario", "reference"):
         if key in rp:
